@@ -588,6 +588,7 @@ def check(ctx):
             if how and how[0] in "TNG" and len(ctx.samples) < 10:
                 ctx.sample("%s: %s `%s` discharged by %s" % (loc, s["kind"], mac or what, {"T": "typestate (unreachable in every context)", "N": "interval/zone proof", "G": "must-guard"}[how[0]]))
     ctx.anchor("panic sources inventoried", nsites, 150)
+    check_loops(ctx, P, fns, ok17)
     check_support(ctx, P, cg, num, used_h | {x for v in num.used_hyps.values() for x in v})
     for h in sorted(used_h | {x for v in num.used_hyps.values() for x in v}):
         ctx.assume("%s: %s" % (h, HYPOTHESES[h]))
@@ -630,6 +631,100 @@ def app_typestate(ctx, P, cg):
             if p["fn"].name == cx.fn.name:
                 flagged.setdefault((cx.fn.name, p["b"]), p)
     return visited, flagged
+
+
+FINITE_ITERATORS = re.compile(r"^&mut (std::ops::Range(Inclusive)?<\w+>|std::slice::Iter(Mut)?<'\w+, .*>|bitvec::slice::Iter\w*<.*>|"
+                              r"std::iter::(Enumerate|Skip|Take|Rev|Copied|Cloned)<(std::slice::Iter(Mut)?<.*>|std::ops::Range<\w+>)>)$")
+
+
+def check_loops(ctx, P, fns, ok17):
+    """b.loop: every loop reachable from poll() terminates: `for` over a finite iterator, or a registered progress argument that is checked."""
+    n = 0
+    for f in fns:
+        be = f.back_edges()
+        heads = sorted({h for (_, h) in be})
+        for h in heads:
+            n += 1
+            key = "%s|loop#%d" % (f.name, heads.index(h))
+            loc = f.loc(h)
+            t = f.blocks[h].term
+            it_ty = None
+            if "call" in t and "desugar:ForLoop" in (t.get("mac") or []) and (t["call"].get("callee") or "").endswith("::next"):
+                it_ty = t["call"]["argtys"][0]
+            if it_ty is not None and FINITE_ITERATORS.match(it_ty):
+                ctx.ob("b.loop", key, True, "", loc)
+                ctx.sample("%s: `for` over %s terminates (finite iterator)" % (loc, it_ty[5:]))
+                continue
+            if it_ty is not None and "ExtDiagBlockIter" in it_ty:
+                ctx.ob("b.loop", key, ok17, "the block iterator's progress clause (C17.b, delegated) failed", loc)
+                continue
+            if f.name.endswith("DpMaster<'a> as fdl::FdlApplication>::transmit_telegram"):
+                from rules import C14
+                ok = delegate(ctx, "C14.a", lambda s: C14.check_progress(s, P), "C14")
+                ctx.ob("b.loop", key, ok, "the slot loop's progress clause (C14.a, delegated) failed", loc)
+                continue
+            if f.name == "phy::ProfibusPhy::receive_all_telegrams":
+                ok, why = receive_loop_progress(P, f, h)
+                ctx.ob("b.loop", key, ok, "the receive loop can go around without consuming input: " + why, loc)
+                if ok:
+                    ctx.assume("ProfibusPhy::receive_data drops the number of bytes its closure returns from a finite receive buffer (trait documentation)")
+                continue
+            ctx.ob("b.loop", key, False, "loop without a registered termination argument (iterator type: %s)" % it_ty, loc)
+    ctx.anchor("loops reachable from poll()", n, 4)
+
+
+def receive_loop_progress(P, f, head):
+    """receive_all_telegrams: the loop continues only when the closure reported `is_last == false`, which it does only together with
+    consuming `length` bytes of an accepted telegram (length >= 1 by C10.a.length, and != buffer.len())."""
+    cls = P.closures_of(f)
+    if len(cls) != 1:
+        return False, "expected one closure, found %d" % len(cls)
+    c = cls[0]
+    tb = TermBuilder(c, P)
+    from analysis.query import return_terms
+    rts = return_terms(c, tb)
+    if not rts:
+        return False, "closure return value not found"
+    nlast = 0
+    for b, i, t in rts:
+        # (consumed, (is_last, result))
+        if not (t[0] == "agg" and len(t[3]) == 2 and t[3][1][0] == "agg" and len(t[3][1][3]) == 2):
+            return False, "unexpected shape of the closure result %s" % show(t)[:80]
+        consumed, flag = t[3][0], t[3][1][3][0]
+        if flag == ("const", True):
+            continue
+        sflag, scons = show(flag), show(consumed)
+        # is_last := (length == buffer.len()) and the same `length` is consumed
+        if flag[0] == "bin" and flag[1] == "Eq" and scons in sflag and "len(" in sflag:
+            nlast += 1
+            continue
+        return False, "is_last is %s while %s bytes are consumed" % (sflag[:60], scons[:40])
+    # the loop must leave when is_last is true: the back edge is only taken on the false branch of the flag
+    tbf = TermBuilder(f, P)
+    ok_exit = False
+    for b, blk in enumerate(f.blocks):
+        t = blk.term
+        if "switch" in t and t.get("sty") == "bool":
+            s_ = show(tbf.joperand(t["switch"]))
+            if "receive_data" in s_ and t["targets"] and int(t["targets"][0][0]) == 0:
+                # is_last == true leaves the loop; only is_last == false may come back to the head
+                true_reach = reach_no_head(f, t["otherwise"], head)
+                back_from_true = any(head in f.succ[x] for x in true_reach)
+                ok_exit = any("ret" in f.blocks[x].term for x in true_reach) and not back_from_true
+    if not ok_exit:
+        return False, "no exit of the loop on is_last == true found"
+    return nlast >= 1, "no consuming continuation found" if nlast < 1 else ""
+
+
+def reach_no_head(f, start, head):
+    seen, st = set(), [start]
+    while st:
+        x = st.pop()
+        if x in seen or x == head:
+            continue
+        seen.add(x)
+        st.extend(f.succ[x])
+    return seen
 
 
 def check_support(ctx, P, cg, num, used):
